@@ -43,6 +43,8 @@ def items(tier, seed):
                 out.append(dict(name=f"bfs-{cls}-cap{cap}-b{b}", kind="bfs", cls=cls, cap=cap, b=b, tasks=0, H=0, seed=seed, fine=not q))
     for cap, H in ([(3, 1)] if q else [(3, 1), (3, 2), (4, 2)]):
         out.append(dict(name=f"bfs-SubPER-cap{cap}-H{H}", kind="bfs", cls="SubtrajectoryReplayBufferPER", cap=cap, b=1, tasks=0, H=H, seed=seed))
+    # tiny update values: the priority mass of the admissible starts is far below any absolute floor, masked entries still weigh nothing
+    out.append(dict(name="bfs-SubPER-cap3-H1-tiny", kind="bfs", cls="SubtrajectoryReplayBufferPER", cap=3, b=1, tasks=0, H=1, seed=seed, V=[2.0**-40], coarse=True))
     out.append(dict(name="bfs-MT-LAP-cap2-t2", kind="bfs", cls="LAP", cap=2, b=1, tasks=2, H=0, seed=seed, V=[2.0], coarse=True))
     # lowering values: a task's stored priorities can fall below its tracked maximum, so a reset has work to do in every task
     out.append(dict(name="bfs-MT-LAP-cap2-t2-Vlow", kind="bfs", cls="LAP", cap=2, b=1, tasks=2, H=0, seed=seed, V=[0.5], coarse=True))
